@@ -39,6 +39,36 @@ def mb_recipes(rng, n):
     return out
 
 
+MB_COMMENTS = ["-- é\n", "[- 名 -]", "-- ¿\n", "[-é-]", "-- x名\r\n", "[- \U0001F955\n-]"]
+
+
+def diag_texts(rng, per):
+    """texts that draw every catalogued diagnostic (checks/c07_catalog.py: parse and analysis stage), plain and
+    with comments ending in multi-byte characters injected after `(`, `{`, `|`, `%`, `:` and blanks, so that label
+    arithmetic next to a comment or a multi-byte character is exercised for every diagnostic"""
+    from checks import c07_catalog as cat
+    out = []
+    for en in cat.CATALOG:
+        cfgs = en.configs()
+        for k in range(per):
+            ext, conv = cfgs[k % len(cfgs)]
+            sp = cat.splice(rng, en, ext)
+            if sp is None:
+                continue
+            t = sp["text"]
+            out.append(t)
+            a, b = sp["a"], sp["b"]
+            raw = t.encode("utf-8")
+            # inject inside (or right next to) the construct
+            pos = [i + 1 for i in range(max(0, a - 1), min(len(raw), b + 1)) if raw[i:i + 1] in (b"(", b"{", b"|", b"%", b":", b" ")]
+            for _ in range(2):
+                if not pos:
+                    break
+                i = rng.choice(pos)
+                out.append((raw[:i] + rng.choice(MB_COMMENTS).encode("utf-8") + raw[i:]).decode("utf-8", "replace"))
+    return out
+
+
 def inputs_for(pid, tier, rng):
     quick = tier == "quick"
     if pid == "C04":
@@ -56,9 +86,10 @@ def inputs_for(pid, tier, rng):
     g = [t for t, _, _, _ in pc.grec_texts(rng, ng)]
     mb = mb_recipes(rng, ng)
     bad = [pc.mutate(t, rng) for t in g + mb]
+    dg = diag_texts(rng, 4 if quick else 30) if pid == "C04" else []
     corpus = [common.unhx(c) for c in common.load_corpus(pid)]
-    allin = list(dict.fromkeys(corpus + specials + ex + fm + g + mb + bad))
-    return allin, len(ex), len(fm), len(g) + len(mb), len(bad)
+    allin = list(dict.fromkeys(corpus + specials + ex + fm + g + mb + dg + bad))
+    return allin, len(ex), len(fm), len(g) + len(mb) + len(dg), len(bad)
 
 
 def run(pid, prefix, rep, tier, seed, modelled, theorem_scope, extra=None):
